@@ -181,4 +181,14 @@ def keysNodup {α} (st : Store α) : Bool := decide (st.map (·.1)).Nodup
 def claimsDeleted (claims : Store Unit) (paid : List Rec) : Bool :=
   paid.all fun r => !r.typ.claimable || !sHas claims (claimKey r.rcpt r.typ)
 
+/-- The two claim clauses per ACCOUNT (F28), on the claim store's keys as dumped from the
+    implementation (`canon` is applied to the whole key `<address>_<type>`; `_` and the type digit
+    are not letters): no two claims of one type for one account, whatever the spellings; and no
+    claim of the record's type is left for the account of a claim-type record that was just paid,
+    whatever spelling the record used. -/
+def claimsPerAccountOK (canon : Addr → Addr) (claimKeys : List Key) (paid : List Rec) : Bool :=
+  let ck := claimKeys.map canon
+  decide ck.Nodup &&
+  paid.all fun r => !r.typ.claimable || !ck.contains (claimKey (canon r.rcpt) r.typ)
+
 end Sif.Spec.C11
